@@ -22,6 +22,8 @@ NDET = 41
 FILTERS = (("g1", "g"), ("g2", "g"), ("r1", "r"), ("i1", "i"))
 DAYS = (20240101, 20240102, 20240103)
 NVISIT = 12
+FILTERS2 = (("o1", "g"), ("o2", "z"))
+COLLS = ["r1", "r2", "rO", "rm"]     # r1, r2: Cam only; rO: Oth only; rm: both (collection summaries differ in their governors)
 NEXP = 24
 T0 = 1_700_000_000  # seconds (unix_tai) of the first timespan
 
@@ -50,6 +52,12 @@ def visit_rows():
             "science_program": "P%d" % (v % 2),
             "zenith_angle": None if v % 7 == 3 else (v % 4) * 0.25 - 0.5,        # -0.5 .. 0.25
             "_span": None if v % 6 == 4 else (T0 + 100 * v, T0 + 100 * v + 30),
+        })
+    for v in (1, 2, 3, 20):     # second instrument: ids overlap with the first on purpose
+        out.append({
+            "instrument": INSTR2, "id": v, "name": f"w{v:03d}", "physical_filter": FILTERS2[v % 2][0], "day_obs": DAYS[0],
+            "seq_num": v - 2, "exposure_time": None if v == 3 else 2.5 * v, "target_name": "T1", "science_program": "P0",
+            "zenith_angle": 0.25, "_span": None if v == 2 else (T0 + 100 * v + 10, T0 + 100 * v + 60),
         })
     return out
 
@@ -84,6 +92,14 @@ def dataset_plan():
     for v in range(1, NVISIT + 1):
         if v % 4 != 0:
             out.append(("vimg", "r1", {"instrument": INSTR, "visit": v}))
+    for d in (0, 1, 2, 50):
+        out.append(("flat", "rO", {"instrument": INSTR2, "detector": d}))
+    for v in (1, 2, 3):
+        out.append(("vimg", "rO", {"instrument": INSTR2, "visit": v}))
+    for ins, d in ((INSTR, 1), (INSTR, 5), (INSTR2, 1), (INSTR2, 50)):
+        out.append(("flat", "rm", {"instrument": ins, "detector": d}))
+    for ins, v in ((INSTR, 4), (INSTR, 8), (INSTR2, 2), (INSTR2, 20)):
+        out.append(("vimg", "rm", {"instrument": ins, "visit": v}))
     return out
 
 
@@ -106,9 +122,12 @@ def build_repo(root=None):
     reg.insertDimensionData("detector", *detector_rows())
     for pf, band in FILTERS:
         reg.insertDimensionData("physical_filter", {"instrument": INSTR, "name": pf, "band": band})
+    for pf, band in FILTERS2:
+        reg.insertDimensionData("physical_filter", {"instrument": INSTR2, "name": pf, "band": band})
     for i, d in enumerate(DAYS):
         reg.insertDimensionData("day_obs", {"instrument": INSTR, "id": d,
                                             "timespan": _span((T0 + 86400 * i - 40000, T0 + 86400 * i + 40000))})
+    reg.insertDimensionData("day_obs", {"instrument": INSTR2, "id": DAYS[0], "timespan": _span((T0 - 40000, T0 + 40000))})
     for r in visit_rows():
         rec = {k: v for k, v in r.items() if not k.startswith("_")}
         rec["timespan"] = None if r["_span"] is None else _span(r["_span"])
@@ -121,7 +140,7 @@ def build_repo(root=None):
         reg.insertDimensionData("exposure", rec)
     fixture.add_dataset_type(butler, "flat", ("instrument", "detector"))
     fixture.add_dataset_type(butler, "vimg", ("instrument", "visit"))
-    for run in ("r1", "r2"):
+    for run in COLLS:
         reg.registerRun(run)
     from lsst.daf.butler import DatasetRef, DataCoordinate
     by = {}
@@ -199,6 +218,20 @@ def _key(did, dims):
     return [did[d] for d in dims]
 
 
+def summary_of(butler, dims, datasets, where, bind):
+    """PredicateConstraintsSummary.constraint_data_id of the where-expression (the stage that prunes dataset-search
+    collections), observed directly"""
+    from lsst.daf.butler.queries._expression_strings import convert_expression_string_to_predicate
+    from lsst.daf.butler.queries._identifiers import IdentifierContext
+    from lsst.daf.butler.queries.predicate_constraints_summary import PredicateConstraintsSummary
+    ctx = IdentifierContext(butler.dimensions.conform(dims), set(datasets), bind or None)
+    pred = convert_expression_string_to_predicate(where, context=ctx, universe=butler.dimensions)
+    out = []
+    for k, v in PredicateConstraintsSummary(pred).constraint_data_id.items():
+        out.append([k, v if isinstance(v, (int, str)) and not isinstance(v, bool) else repr(v)])
+    return out
+
+
 def run_one(butler, case):
     """Evaluate one case; returns {'rows': sorted list of keys} or {'err': class, 'msg': text}."""
     target, api, where = case["target"], case["api"], case["where"]
@@ -221,20 +254,37 @@ def run_one(butler, case):
             rows = [_key(r.dataId, dims) for r in res]
         elif kind == "datasets":
             dims = {"flat": ["instrument", "detector"], "vimg": ["instrument", "visit"]}[name]
-            colls = case.get("collections", ["r1", "r2"])
+            colls = case.get("collections", COLLS)
             if api == "new":
                 res = butler.query_datasets(name, collections=colls, where=where, bind=bind or None, find_first=False,
                                             explain=False, limit=None)
             else:
                 res = list(butler.registry.queryDatasets(name, collections=colls, where=where, bind=bind or None, findFirst=False))
             rows = [[r.run] + _key(r.dataId, dims) for r in res]
+        elif kind == "dsdata":
+            # data IDs of the datasets found by a dataset search (Query.join_dataset_search(...).where(...).data_ids(...))
+            dims = {"flat": ["instrument", "detector"], "vimg": ["instrument", "visit"]}[name]
+            colls = case.get("collections", COLLS)
+            if api == "new":
+                with butler.query() as q:
+                    q = q.join_dataset_search(name, colls).where(where, bind=bind or None)
+                    rows = [_key(d, dims) for d in q.data_ids(dims)]
+            else:
+                res = butler.registry.queryDataIds(dims, datasets=name, collections=colls, where=where, bind=bind or None)
+                rows = [_key(d, dims) for d in res]
         else:
             raise ValueError(target)
     except Exception as e:  # noqa: BLE001
         return {"err": err_class(e), "msg": f"{type(e).__name__}: {str(e)[:300]}"}
     n = len(rows)
     rows = sorted(set(map(tuple, rows)), key=lambda t: tuple(str(x) for x in t))
-    return {"rows": [list(r) for r in rows], "dups": n - len(rows)}
+    out = {"rows": [list(r) for r in rows], "dups": n - len(rows)}
+    if api == "new":
+        try:
+            out["cdi"] = summary_of(butler, dims, [name] if kind in ("datasets", "dsdata") else [], where, bind)
+        except Exception as e:  # noqa: BLE001
+            out["cdi_err"] = f"{type(e).__name__}: {str(e)[:200]}"
+    return out
 
 
 def run_cases(payload):
@@ -251,7 +301,7 @@ def run_cases(payload):
         if payload.get("want_datasets", True):
             for dt in ("flat", "vimg"):
                 dims = {"flat": ["instrument", "detector"], "vimg": ["instrument", "visit"]}[dt]
-                for r in butler.registry.queryDatasets(dt, collections=["r1", "r2"], findFirst=False):
+                for r in butler.registry.queryDatasets(dt, collections=COLLS, findFirst=False):
                     ds.append([dt, r.run] + _key(r.dataId, dims))
         return {"tables": tables, "results": out, "datasets": ds}
     finally:
